@@ -201,7 +201,7 @@ def load_sections(filepath: str) -> SectionConfig:
     if not path.exists():
         raise FileNotFoundError(f"Section file not found: {filepath}")
 
-    text = path.read_text(encoding='utf-8')
+    text = path.read_text(encoding='utf-8-sig')
     return parse_sections(text)
 
 
